@@ -599,7 +599,9 @@ func (r *Runner) cmd(ctx context.Context, cm syntax.Command) {
 			stop := r.exit.ok() == cm.Until
 			r.exit.clear()
 			if stop {
-				r.exit = last
+				if !r.exit.returning && !r.exit.exiting && !r.exit.fatalExit {
+					r.exit = last
+				}
 				break
 			}
 			broken := r.loopStmtsBroken(ctx, cm.Do)
